@@ -143,6 +143,14 @@ class ProgramGen:
         ret = self.gen_ret(st, depth)
         flaggable = (not st["has_flag"]) and (not st["has_setup"]) and ret["shape"] != "none" and all(
             e[0] == "v" and not e[2] and self._plain_node_var(st, e[1]) for e in ret["items"])
+        strict = set()
+        for s_ in st["stmts"]:
+            es = [s_.get("a"), s_.get("b")] + list(s_.get("args", [])) if s_["k"] in ("op", "uop", "logic", "dag") else []
+            for e in es:
+                if e is not None and e[0] == "v":
+                    strict.add(e[1])
+        for x in params:
+            x.append("int" if x[0] in strict else "any")
         self.dags[dname] = dict(params=params, stmts=st["stmts"], ret=ret,
                                 mc=d.int(*p["mc"]), is_async=(depth == 0 and d.bool(p["p_async"])),
                                 flaggable=flaggable, has_flag=st["has_flag"], has_setup=st["has_setup"],
@@ -305,7 +313,15 @@ class ProgramGen:
         nsup = nreq
         while nsup < len(idag["params"]) and d.bool(p["p_explicit_default"]):
             nsup += 1
-        args = [self.arg_expr(cands_v) for _ in range(nsup)]
+        ints = [v for v in cands_v if v.type in ("int", "bool") and not v.nullable]
+        args = []
+        for j in range(nsup):
+            if idag["params"][j][3] == "any":
+                args.append(self.arg_expr(cands_v))
+            elif ints and d.bool(p["p_dep"]):
+                args.append(["v", self.pick_var(ints).name, []])
+            else:
+                args.append(["c", d.pick(["0", "1", "5", "True", "False"])])
         flag = None
         if idag["flaggable"] and d.bool(p["p_nested_flag"]):
             fl = self.gen_flag(st, False, force=True)
